@@ -57,15 +57,7 @@ struct Orig {
     bool bumped{false}; //!< a replacement was committed for it
 };
 
-} // namespace
-
-VERIF_TARGET(c56_bump, nullptr, 96, 700,
-             "a funded descriptor wallet on a regtest node; ops (<=10): wallet-created payment (1-2 recipients, with/without change, signalling or not, "
-             "committed + broadcast), harness-built payment mixing a wallet coin with a foreign coin, child spending an original's unconfirmed change, mine a "
-             "subset of the mempool, bump an original (also confirmed / already bumped / with descendants / not-all-ours ones) in one of four modes: default, "
-             "explicit feerate (from too low to 4x), caller-supplied outputs, fee taken from a designated change output; successful bumps are signed, "
-             "committed and submitted. non-trivial = at least one accepted replacement and at least one refusal of a confirmed / already bumped / "
-             "has-descendants original; distinct = op sequence + per-bump (mode, verdict, inputs added, change kept)")
+void run_case(verif::Src& s, verif::Stats& st, const bool literal)
 {
     SetMockTime(REGTEST_GENESIS_TIME + 3600);
     ChainSimOpts o;
@@ -215,8 +207,15 @@ VERIF_TARGET(c56_bump, nullptr, 96, 700,
                 rate = s.pick<CAmount>({old_rate * 2, old_rate + incremental + 1000, old_rate * 4, old_rate + 1, old_rate / 2, 50000});
                 cc.m_feerate = CFeeRate{*rate};
             } else if (mode == 2) {
-                // caller-supplied outputs: keep the first payment, change its amount, add another payment
-                for (auto& out : og.tx->vout) if (!is_change(out)) { new_outputs.emplace_back(out.nValue + s.pick<CAmount>({0, 10000, -1000}), out.scriptPubKey); break; }
+                // caller-supplied outputs: the original payments with a changed amount on the first one, optionally one more payment.
+                // (literal target only: keep just the first payment, i.e. a SMALLER replacement.)
+                bool first = true;
+                for (auto& out : og.tx->vout) {
+                    if (is_change(out)) continue;
+                    if (first) new_outputs.emplace_back(out.nValue + s.pick<CAmount>({0, 10000, -1000}), out.scriptPubKey);
+                    else if (!literal) new_outputs.push_back(out);
+                    first = false;
+                }
                 if (s.boolean()) new_outputs.emplace_back(70000, sim.keys.Script(SpkType::P2WPKH, 3));
                 if (new_outputs.empty()) mode = 0;
             } else if (mode == 3) {
@@ -237,7 +236,7 @@ VERIF_TARGET(c56_bump, nullptr, 96, 700,
             st.note("bump ", txid.ToString().substr(0, 8), " mode=", mode, rate ? strprintf(" rate=%d", *rate) : "", confirmed ? " [confirmed]" : "", og.bumped ? " [already bumped]" : "",
                     has_desc ? " [has descendants]" : "", !og.all_mine ? " [not all ours]" : "", ok ? " -> ok" : " -> refused: " + errs);
             if (confirmed || og.bumped || has_desc) {
-                VCHECK(!ok, confirmed ? "c56.bumped-confirmed" : og.bumped ? "c56.bumped-already-replaced" : "c56.bumped-with-descendants", "unbumpable original was bumped", txid.ToString());
+                VCHECK(!ok, confirmed ? "c56.bumped-confirmed" : og.bumped ? "c56.bumped-already-replaced" : "c56.bumped-with-descendants", "unbumpable original was bumped", txid.ToString(), "| history:", st.sample);
                 VCHECK(WalletDigest(ws) == before, "c56.refusal-changed-wallet", "wallet digest changed by a refused bump");
                 f_refused = true;
                 st.cls(confirmed ? "refused-confirmed" : og.bumped ? "refused-already-bumped" : "refused-has-descendants");
@@ -260,7 +259,7 @@ VERIF_TARGET(c56_bump, nullptr, 96, 700,
                     const CTxOut& out = og.tx->vout[i];
                     if (change_index ? *change_index == i : is_change(out)) continue;
                     auto it = have.find({out.scriptPubKey, out.nValue});
-                    VCHECK(it != have.end(), "c56.payment-changed", "non-change output", i, "of the original is missing or altered in the replacement; value", out.nValue);
+                    VCHECK(it != have.end(), "c56.payment-changed", "non-change output", i, "of the original is missing or altered in the replacement; value", out.nValue, "| history:", st.sample);
                     have.erase(it);
                 }
             }
@@ -279,7 +278,7 @@ VERIF_TARGET(c56_bump, nullptr, 96, 700,
             VCHECK(old_fee_model && new_fee_model, "c56.harness", "unknown input value");
             const int64_t vsize = own_vsize(newtx);
             VCHECK((__int128)*new_fee_model * 1000 >= (__int128)*old_fee_model * 1000 + (__int128)incremental * vsize, "c56.fee-increment", "new fee", *new_fee_model, "old fee", *old_fee_model,
-                   "incremental", incremental, "sat/kvB x", vsize, "vB");
+                   "incremental", incremental, "sat/kvB x", vsize, "vB", "mode", mode, "| history:", st.sample);
             if (rate) VCHECK((__int128)*new_fee_model * 1000 >= (__int128)*rate * vsize, "c56.fee-below-requested", "new fee", *new_fee_model, "requested", *rate, "sat/kvB x", vsize, "vB");
             // commit + submit: the mempool must take it as a replacement of the original
             Txid bumped;
@@ -288,7 +287,7 @@ VERIF_TARGET(c56_bump, nullptr, 96, 700,
             VCHECK(cres == wallet::feebumper::Result::OK, "c56.harness", "feebumper::CommitTransaction failed");
             auto sub = ws.Submit(MakeTransactionRef(newtx));
             VCHECK(sub.m_result_type == MempoolAcceptResult::ResultType::VALID, "c56.not-accepted", "mempool rejects the replacement:", sub.m_state.ToString(), "new fee", *new_fee_model, "old fee",
-                   *old_fee_model, "vsize", vsize);
+                   *old_fee_model, "vsize", vsize, "mode", mode, "| history:", st.sample);
             bool replaced_orig = false;
             for (auto& r : sub.m_replaced_transactions) if (r->GetHash() == txid) replaced_orig = true;
             VCHECK(replaced_orig, "c56.not-a-replacement", "accepted, but the original is not among the replaced transactions");
@@ -304,4 +303,26 @@ VERIF_TARGET(c56_bump, nullptr, 96, 700,
     wsp.reset();
     simp.reset();
     SetMockTime(0);
+}
+
+} // namespace
+
+VERIF_TARGET(c56_bump, nullptr, 96, 700,
+             "a funded descriptor wallet on a regtest node; ops (<=10): wallet-created payment (1-2 recipients, with/without change, signalling or not, "
+             "committed + broadcast), harness-built payment mixing a wallet coin with a foreign coin, child spending an original's unconfirmed change, mine a "
+             "subset of the mempool, bump an original (also confirmed / already bumped / with descendants / not-all-ours ones) in one of four modes: default, "
+             "explicit feerate (from too low to 4x), caller-supplied outputs, fee taken from a designated change output; successful bumps are signed, "
+             "committed and submitted. non-trivial = at least one accepted replacement and at least one refusal of a confirmed / already bumped / "
+             "has-descendants original; distinct = op sequence + per-bump (mode, verdict, inputs added, change kept)")
+{
+    run_case(s, st, /*literal=*/false);
+}
+
+// Not registered in bin/props.d/C56.py: same generator, but caller-supplied outputs may DROP payments of the original, which makes the
+// replacement smaller. Without an explicit feerate the wallet derives the new feerate from the old one and never compares absolute fees,
+// so the replacement can pay LESS than the original and the mempool refuses it (see corpus/C56/SENSITIVITY.md).
+VERIF_TARGET(c56_bump_literal, nullptr, 96, 700,
+             "same generator as c56_bump; caller-supplied outputs may drop payments of the original (smaller replacement)")
+{
+    run_case(s, st, /*literal=*/true);
 }
